@@ -102,13 +102,14 @@ RespelledRedirectKey(x) ==
       items == RawQueryItems(Split(s).query)
   IN \E i \in 1..Len(items) :
        LET k == items[i][1] val == items[i][2]
+           kc == DropControls(k)              \* (a control character may sit inside the entity too: '&a<U+0085>mp;url=')
            \* the item separator written '&amp;' / '&amp%3B' leaves 'amp;' / 'amp%3B' glued to the key
-           k2 == IF StartsWith(Lower(k), <<97, 109, 112, 59>>) THEN From(k, 5)
-                 ELSE IF StartsWith(Lower(k), <<97, 109, 112, 37, 51, 98>>) THEN From(k, 7) ELSE k
+           k2 == IF StartsWith(Lower(kc), <<97, 109, 112, 59>>) THEN From(kc, 5)
+                 ELSE IF StartsWith(Lower(kc), <<97, 109, 112, 37, 51, 98>>) THEN From(kc, 7) ELSE kc
        IN
        \/ /\ (Has(k, 37) \/ (\E j \in 1..Len(k) : IsControl(k[j])) \/ (\E j \in 1..Len(val) : IsControl(val[j])))
-          /\ InSeq(Lower(Decode(DropControls(k))), ND.redirect_keys)
-       \/ (k2 # k /\ InSeq(Lower(Decode(DropControls(k2))), ND.redirect_keys))
+          /\ InSeq(Lower(Decode(kc)), ND.redirect_keys)
+       \/ (k2 # kc /\ InSeq(Lower(Decode(k2)), ND.redirect_keys))
 \* a youtube.com / facebook.com url whose path ends with a slash
 PlatformTrailingSlash(x) ==
   LET s == UpperEscapes(Clean(x))
